@@ -35,6 +35,23 @@ def perms_upto(keys, n):
     return out
 
 
+def with_dups(lists):
+    """every list of `lists` with one of its keys held a second time (by a second layout state: two physical keys
+    written as the same key, a one-shot or chord modifier next to the physical one), the copy at every position"""
+    out, seen = [], set()
+    mods = set(allmods())
+    for l in lists:
+        for k in l:
+            # a non-modifier key only next to its first copy: two copies of the key that see different modifier sets
+            # (key, modifier, key) may match two different overrides, on which the statement is silent
+            for pos in (range(len(l) + 1) if k in mods else [l.index(k) + 1]):
+                d = l[:pos] + [k] + l[pos:]
+                if tuple(d) not in seen:
+                    seen.add(tuple(d))
+                    out.append(d)
+    return out
+
+
 # ------------------------------------------------------------------ part F: TLC enumeration
 MC_F = r"""---- MODULE %(mod)s ----
 EXTENDS Naturals, Sequences, FiniteSets, TLC, Json
@@ -261,6 +278,9 @@ def universes(tier, rng):
     full = [{"i": im + [ik], "o": om + [ok]} for ik in (A, B) for im in subsets(m3) for ok in (A, B) for om in subsets(m3)]
     lists5 = perms_upto(m3 + [A, B], 4)
     lists6 = lists5 + [l for l in perms_upto(m3 + [A, B, X], 4) if X in l]
+    # active-key lists with a duplicated key code (keyberon returns duplicates): all copies are replaced
+    lists6 = lists6 + with_dups(perms_upto(m3 + [A, B], 3))
+    lists5 = lists5 + with_dups(perms_upto(m3 + [A, B], 2))
     # level 1: every single override over {a, b} x 3 modifiers, lists also with a foreign key
     L.append(("one", full, lists6, [[i + 1] for i in range(len(full))]))
     ins = [im + [ik] for ik in (A, B) for im in subsets(m3)]
@@ -319,7 +339,11 @@ def lists_for(rng, ovs, mods, others, n):
                 base = ms + ks
             else:
                 rng.shuffle(base)
-            out.append(base[:9])
+            base = base[:9]
+            if base and rng.random() < 0.2:       # a key held by two layout states (a non-modifier: adjacent copies)
+                k = rng.choice(base)
+                base.insert(rng.randint(0, len(base)) if k in mods else base.index(k) + 1, k)
+            out.append(base)
         else:
             pool = [m for m in mods if rng.random() < 0.5] + others
             rng.shuffle(pool)
@@ -357,6 +381,8 @@ def eight_mod_lines(tier, rng):
         ls += [l + [B] for l in ls[:10]] + [[B] + l for l in ls[:10]]
         ls += [[k for k in l if k != m] for l in ls[:6] for m in im[:3]]          # one modifier short
         ls += [[m] + l for l in ls[:6] for m in mods if m not in im][:24]         # a foreign modifier held
+        ls += [l[:p] + [k] + l[p:] for l in ls[:3] for k in l[:3] if k in mods for p in (0, len(l))]   # a modifier held twice
+        ls += [l[:l.index(A) + 1] + [A] + l[l.index(A) + 1:] for l in ls[:3]]                         # the key held twice
         lines.append({"ovs": t, "lists": ls, "tag": "single8"})
         if len(im) <= (3 if tier == "thorough" else 1):
             lines.append({"ovs": t, "ls": "p10", "tag": "single8p"})
@@ -384,6 +410,7 @@ LAYOUTS = {
     "id": [("lsft", "lsft"), ("lctl", "lctl"), ("a", "a"), ("b", "b")],
     "rm": [("lsft", "lsft"), ("lctl", "lctl"), ("j", "a"), ("k", "b")],     # remapped keys
     "sw": [("lsft", "lsft"), ("lctl", "lctl"), ("a", "b"), ("b", "a")],     # swapped: a key named like an override input
+    "2s": [("lsft", "lsft"), ("rsft", "lsft"), ("a", "a"), ("b", "b")],     # both shift keys written as lsft: duplicates
 }
 REPEAT_ENV = r"""
 RepKeys == %s
@@ -452,7 +479,7 @@ def pipeline_jobs(tier, rng):
     for name, ovs in tables:
         rnd = name.startswith("r")
         for roa in (False, True):
-            for layout in ("id", "rm", "sw"):
+            for layout in ("id", "rm", "sw", "2s"):
                 lay = LAYOUTS[layout]
                 keys = [C(p) for p, _ in lay]
                 rkeys = keys[2:]
@@ -463,7 +490,10 @@ def pipeline_jobs(tier, rng):
                 if layout == "id" and name in (("t1",) if quick else ("t1", "t2", "t3", "r0")):
                     insts.append({"name": "c13_" + tag, "kbd": kbd, "keys": keys, "qmax": 2 if quick else 3,
                                   "monitor": {"module": "P_C13", "params": params}})
-                if layout != "id" and (name, layout, roa) in ((("t2", "rm", False), ("t2", "sw", True)) if quick else
+                if layout == "2s" and name in (("t1",) if quick else ("t1", "t2", "t3")) and (not quick or not roa):
+                    insts.append({"name": "c13_" + tag, "kbd": kbd, "keys": keys, "qmax": 2,
+                                  "monitor": {"module": "P_C13", "params": params}})
+                if layout not in ("id", "2s") and (name, layout, roa) in ((("t2", "rm", False), ("t2", "sw", True)) if quick else
                                                               tuple((t, l, r) for t in ("t1", "t2", "t3") for l in ("rm", "sw")
                                                                     for r in (False, True))):
                     insts.append({"name": "c13_" + tag, "kbd": kbd, "keys": keys, "qmax": 1 if quick else 2,
@@ -475,6 +505,8 @@ def pipeline_jobs(tier, rng):
                 if layout == "id":
                     scripts = toggles(keys, 4 if rnd else (5 if quick else 6), 1)
                     scripts += toggles(keys, 3 if quick else 4, 1, rkeys)
+                elif layout == "2s":
+                    scripts = toggles(keys, 4 if (rnd or quick) else 5, 1) + toggles(keys, 3, 1, rkeys)
                 else:
                     scripts = toggles(keys, 3 if rnd else 4, 1, rkeys)
                 scripts += [rand_history(rng, keys, rng.randint(4, 40 if quick else 120), gaps, tail=5,
@@ -735,7 +767,7 @@ def run(tier, seed):
         "the held key.  distinct_nontrivial = distinct TLC states.",
         assumptions=["P_C13 written from the statement and docs/config.adoc; ties between equally long overrides and "
                      "lists where the key precedes its modifiers are deliberately soft (either documented reading accepted)",
-                     "active-key lists without repeated keys in the exhaustive part",
+                     "active-key lists with at most one key held twice in the exhaustive part",
                      "pipeline monitor: plain keys (identity or an injective remap); a substituted key may be dropped by kanata "
                      "afterwards; repeats are judged only when every input is processed and nothing is owed (completeness R2 only "
                      "in the state left by a sharp tick); which of several eligible keys repeats is left to C14",
